@@ -1037,6 +1037,9 @@ func runVestCase(ta *TestApp, seed uint64, idx int, rep *Report, profile string)
 				}
 				rep.Eval("C06.pool_denomination_cannot_change_while_pools_exist", err != nil && app.CfevestingKeeper.GetParams(ctx).Denom == before, idx, s,
 					fmt.Sprintf("governance changed the vesting denomination from %q to %q while %d owner entries with pools are stored: what the pools lock is stranded", before, app.CfevestingKeeper.GetParams(ctx).Denom, len(stored)))
+				// C05: whatever governance decided, the module account still backs what the pools lock, in the denomination in force
+				msgInv, brokenInv := vestkeeper.ModuleAccountInvariant(app.CfevestingKeeper)(ctx)
+				rep.Eval("C05.pools_backed_after_denomination_update_attempt", !brokenInv, idx, s, msgInv)
 				if err == nil { // keep the rest of the history meaningful for the model
 					app.CfevestingKeeper.SetParams(ctx, vesttypes.Params{Denom: before})
 				}
